@@ -557,7 +557,7 @@ def run(ctx):
         ctx.add(r3.violations)
         r3s.append(r3)
         # ... and the FULL alphabet (list operands, disconnect wrappers, sugar, foreign operands) on the same layouts
-        r4 = explorer.bfs(ctx, LinkSystem(full, holes), (2 if holes == HOLE_LAYOUTS[0] else 1) + (1 if ctx.thorough else 0),
+        r4 = explorer.bfs(ctx, LinkSystem(full, holes), 2 if (holes == HOLE_LAYOUTS[0] or ctx.thorough) else 1,
                           op_indices=rotate(range(len(full)), ctx.seed), chunk=4)
         ctx.add(r4.violations)
         r3s.append(r4)
